@@ -7,11 +7,12 @@ removed from the parser state in this call by pop/take, so each element is proce
 bounded-by-depth (a deep copy of accumulated values whose repetition is limited by the constant nesting
 limit K of R-DEPTH). Anything else is an amplification site."""
 import os
+import re
 
 from .. import guardrules as gr
 from ..engine import VERIF, load_json
 from ..facts import site, unwrap
-from ..symx import TooManyPaths, all_calls, cshow, paths_of, tshow
+from ..symx import TooManyPaths, all_calls, cshow, paths_of, simp, tshow
 from ..terms import is_call, subterms
 
 
@@ -58,6 +59,58 @@ def len_is_const(conds, term):
     return None
 
 
+def const_int(F, t):
+    t = simp(t) if isinstance(t, tuple) else t
+    while isinstance(t, tuple) and t[0] == "cast":
+        t = t[2]
+    if isinstance(t, tuple) and t[0] == "lit" and isinstance(t[1], int) and not isinstance(t[1], bool):
+        return t[1]
+    if isinstance(t, tuple) and t[0] == "def":
+        v = F.const_value(t[1])
+        return v if isinstance(v, int) and not isinstance(v, bool) else None
+    return None
+
+
+def alloc_budget(run, F, T, fn, body, t, node):
+    """A constant pre-allocation made once per input token is a constant memory amplification factor: the budget keeps
+    a 1 MiB message (whose shortest token is one byte) well under typical address-space limits."""
+    name = t[1]
+    n = const_int(F, t[2][-1]) if t[2] else None
+    if n is None:
+        return
+    rty = (node.get("ty") or "") if isinstance(node, dict) else ""
+    holds_state = any(m in rty for m in T["state_markers"]) or "HashMap" in rty or "BTreeMap" in rty
+    limit = T.get("alloc_literal_limit", {}).get("entries" if holds_state else "bytes")
+    run.ob("R-COSTSITES", "%s: constant pre-allocation %s(%d) within the per-token budget (%d %s)" % (
+        fn.split("::", 1)[-1], name.split("::")[-1], n, limit, "entries" if holds_state else "bytes"), n <= limit,
+        "%s(%d) runs once per input token (a group delimiter is one byte): every token pins %d %s of %s, a memory amplification of several KiB per input byte - "
+        "a 1 MiB message of bare delimiters exhausts memory and the process aborts" % (name, n, n, "entries" if holds_state else "bytes", rty[:60]),
+        site(body, node), key="R-COSTSITES|%s|alloc-constant|%s" % (fn, name.split("::")[-1]))
+
+
+def check_alloc(run, F):
+    """The allocation clauses alone (shared with C02: abort by memory exhaustion)."""
+    T = load_json(os.path.join(VERIF, "tables", "cost.json"))
+    g = gr.call_graph(F)
+    pc = gr.cone(g, gr.PARSE_ROOTS)
+    n = 0
+    for fn in sorted(f for f in pc if not F.hir[f].get("from_expansion")):
+        body = F.hir[fn]
+        try:
+            paths = paths_of(body)
+        except TooManyPaths:
+            continue
+        seen = set()
+        for p in paths:
+            for t, _conds in all_calls(p):
+                node = t[3] if len(t) > 3 and isinstance(t[3], dict) else {}
+                if t[1] in T["alloc"] and id(node) not in seen:
+                    seen.add(id(node))
+                    n += 1
+                    alloc_budget(run, F, T, fn, body, t, node)
+    return n
+
+
 def check(run, views, tier):
     T = load_json(os.path.join(VERIF, "tables", "cost.json"))
     P = load_json(os.path.join(VERIF, "tables", "panic.json"))
@@ -77,6 +130,32 @@ def check(run, views, tier):
         pc = gr.cone(g, gr.PARSE_ROOTS)
         # functions reached only through the trace!/Display edge are the inspect cone's business (C02); keep parser / reader / decoder / constructors
         fns = sorted(f for f in pc if not F.hir[f].get("from_expansion") and not f.startswith("<ipp::value::IppValue as std::fmt::Display>"))
+        # hash containers filled with peer-chosen names must use the keyed default hasher (HashDoS: an unkeyed hash makes inserts O(n))
+        for adt_path, a in sorted(F.adts.items()):
+            if not adt_path.startswith("ipp::") or a["file"].endswith(("client.rs",)):
+                continue
+            for v in a["variants"]:
+                for f in v["fields"]:
+                    ty = f["ty"]
+                    for m in re.finditer(r"std::collections::Hash(Map|Set)<", ty):
+                        # count the top-level generic arguments of this HashMap/HashSet
+                        depth, args, i = 0, 1, m.end()
+                        while i < len(ty):
+                            ch = ty[i]
+                            if ch == "<":
+                                depth += 1
+                            elif ch == ">":
+                                if depth == 0:
+                                    break
+                                depth -= 1
+                            elif ch == "," and depth == 0:
+                                args += 1
+                            i += 1
+                        want = 2 if m.group(1) == "Map" else 1
+                        run.ob("R-COSTSITES", "%s.%s: hash container uses the keyed default hasher" % (adt_path.split("::", 1)[-1], f["name"]), args == want,
+                               "field type %s names its own hasher: with an unkeyed hash a peer can choose attribute names that collide, and every insert then "
+                               "compares against all earlier names (quadratic parse)" % ty[:140], "%s:%s" % (a["file"], a["line"]),
+                               key="R-COSTSITES|hasher|%s.%s" % (adt_path, f["name"]))
         saved = (run.explanation, run.trusted, run.not_decided)
         K = gr.r_depth(run, F, P)
         run.explanation, run.trusted, run.not_decided = saved
@@ -134,6 +213,7 @@ def check(run, views, tier):
                                "%s is sized by %s of accumulated parser state (%s): memory is allocated in proportion to earlier input for every later token / group" % (
                                    name, bad[0].split("::")[-1] if bad else "?", (bad[1] if bad else "")[:60]), site(body, node),
                                key="R-COSTSITES|%s|alloc|%s" % (fn, name.split("::")[-1]))
+                        alloc_budget(run, F, T, fn, body, t, node)
                         continue
                     if name not in cost or not t[2]:
                         continue
